@@ -457,8 +457,14 @@ macro_rules! impl_cache_processor {
                         Ok(())
                     }
                     $item::Delete { key, conflict } => {
-                        self.policy.remove(&key); // deals with metrics updates.
-                        if let Some(sitem) = self.store.try_remove(&key, conflict)? {
+                        let removed = self.store.try_remove(&key, conflict)?;
+                        // Keep the charge when the store refused the removal because another key
+                        // (same index hash, different conflict hash) is resident under this index:
+                        // un-charging it would leave it resident but invisible to the policy.
+                        if removed.is_some() || self.store.expiration(&key).is_none() {
+                            self.policy.remove(&key); // deals with metrics updates.
+                        }
+                        if let Some(sitem) = removed {
                             self.callback.on_exit(Some(sitem.value.into_inner()));
                         }
 
